@@ -289,6 +289,10 @@ func replayMain(id, path string, opt *Options) int {
 		fmt.Fprintln(os.Stderr, err)
 		return 2
 	}
+	if len(rf.Case.Sched) > 0 {
+		// a schedule-dependent counterexample: replayed with its recorded schedule forced
+		ov = instrumentedOverlay(opt.Repo, ov)
+	}
 	outs, err := NativeReplay(opt, rf.Pkg, ov, []NativeCase{rf.Case})
 	if err != nil {
 		fmt.Fprintln(os.Stderr, err)
